@@ -113,18 +113,15 @@ Section Engine.
     else re_split_loop s (all_matches_gen s) 0 0.
 End Engine.
 
-(* ---- unicode.IsSpace / strings.Fields ------------------------------------ *)
-Definition is_space (r : Z) : bool :=
-  if r <? 256 then
-    ((9 <=? r) && (r <=? 13)) || (r =? 32) || (r =? 133) || (r =? 160)
-  else
-    (r =? 5760) || ((8192 <=? r) && (r <=? 8202)) || (r =? 8232) || (r =? 8233)
-    || (r =? 8239) || (r =? 8287) || (r =? 12288).
+(* ---- interp.splitBlanks (split(s, a, " ") and the default FS) --------------
+   Since /repo fix 73fc014 the separators are the bytes space, tab and newline only
+   (before: strings.Fields, i.e. every Unicode White_Space rune). *)
+Definition is_space (r : Z) : bool := (r =? 32) || (r =? 9) || (r =? 10).
 
 Definition space_chunk (c : bytes) : bool := is_space (rune_of c).
 
-(* strings.Fields = FieldsFunc(s, unicode.IsSpace) over the chunks `range s` visits
-   (the ASCII fast path computes the same).  [cur] = field being collected, [inf] = in a field *)
+(* splitBlanks, stated over the chunks `range s` visits (a multi-byte chunk is never a blank, so this
+   is the byte loop of the code).  [cur] = field being collected, [inf] = in a field *)
 Fixpoint fields_chunks (cs : list bytes) (cur : bytes) (inf : bool) : list bytes :=
   match cs with
   | [] => if inf then [cur] else []
